@@ -208,6 +208,14 @@ func (fx *Fx) exec(st *State, s ast.Stmt) {
 		if elem != nil {
 			v = fx.convertTo(st, v, elem)
 		}
+		if fx.spec != nil && fx.spec.Flags["nonblocking"] != "" {
+			// the function promises to return in bounded time: a send outside a select with a default branch may only go
+			// to a buffered channel this activation created and has not sent to yet (nobody else can have filled it)
+			cnc := fmt.Sprintf("(select (select %s %d) %s)", st.heap("CNC", cntSort), evKinds["Send"], ch.T)
+			cnc0 := fmt.Sprintf("(select (select %s %d) %s)", fx.entry.heap("CNC", cntSort), evKinds["Send"], ch.T)
+			phi := fmt.Sprintf("(and (> %s %s) (>= (select %s %s) 1) (= %s %s))", ch.T, fx.entry.alloc, st.heap("CP", "(Array Int Int)"), ch.T, cnc, cnc0)
+			fx.c.oblige(st, "blocking", "send("+fx.exprText(s.Chan)+")", phi, "send cannot block: "+fx.exprText(s.Chan)+" is a buffered channel created here and not yet sent to (otherwise use select with default)", fx.w.pos(s.Pos()))
+		}
 		fx.chanSend(st, ch, v, s)
 	default:
 		fx.unsup(s, "statement %T", s)
